@@ -1187,7 +1187,9 @@ class ClusterModel(object):
         post = self.st.summ[nk]
         # physical effects of dropNode
         for o in obs:
-            if o[0] == 'dropnode' and pair(nid, o[1]) in phys:
+            if o[0] == 'dropnode':
+                # the connection is closed by this side: what the peer (possibly dead by now) had still in
+                # flight towards it is discarded with the socket
                 phys = phys - {pair(nid, o[1])}
                 links = set_queue(links, o[1], nid, ())
         if out:
